@@ -616,10 +616,12 @@ class CallGraph:
             # callback holes: foreign generic instantiated with local types
             if not cal.local:
                 for tix in cal.substs:
-                    for adt in facts.types[tix].get("adts", []):
+                    ty = facts.types[tix]
+                    # (a closure's captured values are opaque to the foreign generic: only the closure
+                    # body itself can call into their impls, and that body is an edge of its own)
+                    for adt in (ty.get("adts", []) if ty.get("k") != "closure" else []):
                         for g in self.adt_callbacks.get(adt, []):
                             self._edge(f, g, bi, line)
-                    ty = facts.types[tix]
                     if ty.get("k") == "closure" and ty.get("def") in facts.fns:
                         self._edge(f, facts.fns[ty["def"]], bi, line)
                     if ty.get("k") == "fndef" and ty.get("def") in facts.fns:
